@@ -426,6 +426,49 @@ def table_and_header(rep, F, tag):
     R2.guard(body2)
 
 
+SETTINGS_LINES = [
+    ('  max iter = ', ', time limit', ['arg2.max_iter', None, 'arg2.max_step_fraction']),
+    ('tol_feas = ', None, ['arg2.tol_feas', 'arg2.tol_gap_abs', 'arg2.tol_gap_rel']),
+    ('static reg', None, ['_bool_on_off(arg2.static_regularization_enable)', 'arg2.static_regularization_constant', 'arg2.static_regularization_proportional']),
+    ('dynamic reg', None, ['_bool_on_off(arg2.dynamic_regularization_enable)', 'arg2.dynamic_regularization_eps', 'arg2.dynamic_regularization_delta']),
+    ('iter refine', None, ['_bool_on_off(arg2.iterative_refinement_enable)', 'arg2.iterative_refinement_reltol', 'arg2.iterative_refinement_abstol']),
+    ('max iter = ', 'stop ratio', ['arg2.iterative_refinement_max_iter', 'arg2.iterative_refinement_stop_ratio']),
+    ('equilibrate:', None, ['_bool_on_off(arg2.equilibrate_enable)', 'arg2.equilibrate_min_scaling', 'arg2.equilibrate_max_scaling']),
+]
+
+
+def settings_header(rep, F, tag):
+    """"the configuration header reports the true ... settings": every figure of print_settings is the settings field its label
+    names; the line that follows a block header (iter refine / equilibrate) belongs to that block."""
+    R = rep.rule('C20.R5', 'configuration header: label -> source provenance')
+
+    def body():
+        f = F.one(name='print_settings', adt='DefaultInfo')
+        fs = fmt_sources(f)
+        for a, b, want in SETTINGS_LINES:
+            hits = [x for x in fs if a in x[0] and (b is None or b in x[0])]
+            if not R.check(len(hits) == 1, 'settings-line|%s%s' % (a.strip(), tag), 'settings line "%s" found %d times' % (a.strip(), len(hits)), f.loc()):
+                continue
+            got = hits[0][1]
+            ok = len(got) == len(want) and all(w is None or w == g for w, g in zip(want, got))
+            R.check(ok, 'settings-source|%s%s' % (a.strip() + ('|' + b.strip() if b else ''), tag), 'settings line "%s" formats %s, expected %s' % (a.strip(), got, want), f.loc(hits[0][2].sp))
+        # the continuation line after "equilibrate:" (the last "max iter") prints the equilibration cap
+        idx = [i for i, x in enumerate(fs) if 'equilibrate:' in x[0]]
+        if idx and idx[0] + 1 < len(fs):
+            nxt = fs[idx[0] + 1]
+            R.check('max iter' in nxt[0] and nxt[1] == ['arg2.equilibrate_max_iter'], 'settings-source|equilibrate|max iter' + tag,
+                    'the line after "equilibrate:" formats %s, expected the equilibration iteration cap' % nxt[1], f.loc(nxt[2].sp))
+        else:
+            R.bad('settings-source|equilibrate|max iter' + tag, 'no line follows the "equilibrate:" line', f.loc())
+        tl = [x for x in fs if 'time limit' in x[0]]
+        if tl:
+            v = [canon(f.sym_rvalue(st['rv'])) for bi, si, st in f.assignments() if not st['p']['p'] and f.local_name(st['p']['l']) == 'time_lim_str']
+            calls = [canon(f.sym_operand(c.args[0])) for c in f.calls if c.callee.name == 'is_infinite' and c.args]
+            R.check(any('arg2.time_limit' in x for x in calls), 'settings-source|time limit' + tag, 'the time limit string is not derived from settings.time_limit (%s)' % calls, f.loc())
+
+    R.guard(body)
+
+
 def cone_tags(rep, F, tag):
     """The per-type cone counts of the configuration header are computed from SupportedConeAsTag::as_tag: each cone variant
     must map to the tag of the same name, otherwise cones of one type are listed under another."""
@@ -466,6 +509,7 @@ def run(ctx, rep, tier):
         transparent_targets(rep, F, tag)
         table_and_header(rep, F, tag)
         cone_tags(rep, F, tag)
+        settings_header(rep, F, tag)
     if tier == 'thorough':
         from . import witness
         witness.run(rep, 'C20.W', ['private_stream'])
